@@ -9,6 +9,7 @@
 mod engine_a;
 mod engine_b;
 mod engine_c;
+mod engine_g;
 mod framework;
 mod hashseed;
 mod observe;
@@ -26,11 +27,12 @@ fn engine_for(prop: &str) -> Option<&'static dyn Engine> {
         "C12" => Some(&engine_c::ENGINE_C12),
         "C13" => Some(&engine_b::ENGINE_C13),
         "C14" => Some(&engine_b::ENGINE_C14),
+        "C19" => Some(&engine_g::ENGINE_C19),
         _ => None,
     }
 }
 
-const ALL: &[&str] = &["C03", "C08", "C12", "C13", "C14"];
+const ALL: &[&str] = &["C03", "C08", "C12", "C13", "C14", "C19"];
 
 fn main() {
     hashseed::install_panic_hook();
